@@ -1329,3 +1329,68 @@ def m_asref(ex, st, fr, path, args, m):
     if isinstance(v, Ref):
         return v
     return r
+
+
+# ------------------------------------------------------------------------------------------------
+# byte conversions / Extend
+# ------------------------------------------------------------------------------------------------
+@model(r"^core::num::<impl (\w+)>::(from|to)_(be|le|ne)_bytes$")
+def m_bytes_conv(ex, st, fr, path, args, m):
+    ty, direction, endian = m.group(1), m.group(2), m.group(3)
+    w = INT_W[ty]
+    nbytes = w // 8
+    big = endian == "be"
+    if direction == "from":
+        arr = args[0]
+        bs = list(arr.fields)
+        if big:
+            bs = bs[::-1]            # bs[0] = least significant
+        if all(b.concrete for b in bs):
+            v = 0
+            for i, b in enumerate(bs):
+                v |= (b.v & 0xFF) << (8 * i)
+            return I(ty, v)
+        return I(ty, z3.Concat(*[b.z() for b in bs[::-1]]))
+    x = args[0]
+    if x.concrete:
+        u = x.v & ((1 << w) - 1)
+        bs = [I("u8", (u >> (8 * i)) & 0xFF) for i in range(nbytes)]
+    else:
+        bs = [I("u8", z3.Extract(8 * i + 7, 8 * i, x.z())) for i in range(nbytes)]
+    if big:
+        bs = bs[::-1]
+    return Agg("array", bs)
+
+
+@model(r"^<(?:std::vec::)?Vec<(.*)> as (?:std::iter::)?Extend<(.*)>>::extend::<(.*)>$")
+def m_vec_extend(ex, st, fr, path, args, m):
+    v = vec_of(args[0])
+    src = args[1]
+    if isinstance(src, IterV):
+        import copy
+        it = copy.deepcopy(src)
+        out = []
+        while True:
+            o = iter_next(ex, st, it)
+            if o.variant == "None":
+                break
+            out.append(deep_clone(deref_val(o.fields[0])) if m.group(2).startswith("&") else o.fields[0])
+        v.elems.extend(out)
+        return UNIT
+    if isinstance(src, (Ref, VecObj)) or (isinstance(src, Agg) and src.kind == "array"):
+        el, lo, hi = seq_of(src)
+        v.elems.extend(deep_clone(e) for e in el[lo:hi])
+        return UNIT
+    return NotImplemented
+
+
+@model(r"^<GenericArray<u8, .*> as (?:std::ops::)?Deref>::deref$|^GenericArray::<u8, .*>::as_slice$")
+def m_generic_array(ex, st, fr, path, args, m):
+    r = args[0]
+    el, lo, hi = seq_of(r)
+    return slice_ref(r)
+
+
+@model(r"^<(?:std::string::)?String as (?:std::convert::)?Into<Box<dyn .*>>>::into$|^<Box<dyn .*> as (?:std::convert::)?From<.*>>::from$")
+def m_box_error(ex, st, fr, path, args, m):
+    return Opaque("BoxedError")
